@@ -541,7 +541,30 @@ def rungekutta4(m: Model, d: Data):
 
   _rk_accumulate(m, d, B[0], qvel_rk, qacc_rk, act_dot_rk)
 
+  # the end-of-step overflow test only sees the counts of the last stage: record the earlier stages' overflows
+  # with the same kernel and a zero timestep (time is left unchanged)
+  zero_timestep = wp.zeros(1, dtype=float)
+
   for i in range(3):
+    wp.launch(
+      _next_time_builder(bool(m.opt.warn_overflow)),
+      dim=d.nworld,
+      inputs=[
+        zero_timestep,
+        m.is_sparse,
+        d.nefc,
+        d.time,
+        d.efc.J_rownnz,
+        d.efc.J_rowadr,
+        d.nworld,
+        d.naconmax,
+        d.njmax,
+        d.njmax_nnz,
+        d.nacon,
+        d.ncollision,
+      ],
+      outputs=[d.time, d.overflow],
+    )
     a, b = float(A[i]), B[i + 1]
     _rk_perturb_state(m, d, a, qpos_t0, qvel_t0, act_t0)
     forward(m, d)
